@@ -370,17 +370,17 @@ theorem SE.trans {a b c : State} (h1 : SE a b) (h2 : SE b c) : SE a c := ⟨h2.n
 theorem SE.nm {s s' : State} (h : SE s s') (x : Id) : nm s'.dom x = nm s.dom x := nm_of_nodes h.nodes x
 
 theorem removeFromStack_sem {x : Id} {s s' : State} {u : Unit} (e : removeFromStack x s = .ok (u, s')) :
-    SE s s' ∧ (s'.openElems = s.openElems ∨
+    SE s s' ∧ ((s'.openElems = s.openElems ∧ x ∉ s.openElems) ∨
       ∃ pos, s.openElems[pos]? = some x ∧ x ∉ s.openElems.drop (pos + 1) ∧ s'.openElems = s.openElems.eraseIdx pos) := by
   unfold removeFromStack at e
   obtain ⟨r, s1, e1, e2⟩ := bind_ok.mp e
   have e1' : rposition (fun n => if true then sameNode x n else sameNode n x) s = .ok (r, s1) := e1
-  obtain ⟨q1, h1, _⟩ := rposition_same_sem e1'
+  obtain ⟨q1, h1, h1n⟩ := rposition_same_sem e1'
   cases r with
   | none =>
     simp only at e2
     obtain ⟨_, rfl⟩ := pure_ok.mp e2
-    exact ⟨SE.of_qs q1, Or.inl q1.openElems⟩
+    exact ⟨SE.of_qs q1, Or.inl ⟨q1.openElems, h1n rfl⟩⟩
   | some pos =>
     simp only at e2
     obtain ⟨_, s2, e3, e4⟩ := bind_ok.mp e2
@@ -508,7 +508,8 @@ theorem listCloseSearch_sem (list : Bool) : ∀ (l : List Id) (s s' : State) (r 
     listCloseSearch list l s = .ok (r, s') →
       QS s s' ∧ ∀ name, r = some name → ∃ pre m post, l = pre ++ m :: post ∧ name = (nm s.dom m).loc ∧
         (if list then closeList (nm s.dom m) else closeDefn (nm s.dom m)) = true ∧
-        ∀ x ∈ pre, extraSpecial (nm s.dom x) = false
+        ∀ x ∈ pre, extraSpecial (nm s.dom x) = false ∧
+          (if list then closeList (nm s.dom x) else closeDefn (nm s.dom x)) = false
   | [], s, s', r, e => by
     unfold listCloseSearch at e
     obtain ⟨rfl, rfl⟩ := pure_ok.mp e
@@ -538,7 +539,7 @@ theorem listCloseSearch_sem (list : Bool) : ∀ (l : List Id) (s s' : State) (r 
         intro z hz
         simp only [List.mem_cons] at hz
         rcases hz with rfl | hz
-        · rw [← hn]; simpa using hx
+        · rw [← hn]; exact ⟨by simpa using hx, by simpa using hc⟩
         · rw [← q1.nm]; exact hpre z hz
 
 theorem bodyElem_sem {s s' : State} {r : Option Id} (e : bodyElem s = .ok (r, s')) :
